@@ -134,7 +134,8 @@ pub fn behaviour() -> Behaviour {
                the call sequence must end with the concatenation, in declaration order, of each non-ignored field's own sequence (own Hash or custom \
                method), the remaining prefix must be equal within a variant and pairwise different between variants, and two values feed identical \
                data iff they agree on variant and non-ignored fields; a == b implies equal hashes when PartialEq is configured alike; non-trivial = \
-               an ignored field whose value varies or >=2 variants including a unit one, with differing pairs observed",
+               an ignored field whose value varies or >=2 variants including a unit one, with differing pairs observed; 3% of the enums have 257..513 variants \
+               (the first variant's shape repeated at positions 256 and 512)",
         salt: 0xC05,
         cfg,
         adjust,
